@@ -1,5 +1,6 @@
 import UflVerif.Model.Driver
 import UflVerif.Model.Order
+import UflVerif.Model.Construct
 open UflVerif SExp
 
 /- requests (one S-expression per line), one reply line each:
@@ -17,6 +18,40 @@ def idxEnvOf (s : SExp) : IdxEnv :=
         | _, _ => ι
       | _ => ι) (fun _ => 0)
   | _ => fun _ => 0
+
+def showRes : Option Expr → String
+  | some e => if e == Expr.unsupported then "(unsupported)" else s!"(ok {e.print})"
+  | none => "(raises)"
+
+def idxList : Expr → Option (List Idx)
+  | .mi is => some is
+  | _ => none
+
+/-- `(mk <Class> operand*)`: the class constructor of the model -/
+def mk (name : String) (args : List Expr) : String :=
+  match name, args with
+  | "Sum", [a, b] => showRes (Expr.mkSum a b)
+  | "Product", [a, b] => showRes (Expr.mkProduct a b)
+  | "Division", [a, b] => showRes (Expr.mkDivision a b)
+  | "Power", [a, b] => showRes (Expr.mkPower a b)
+  | "Abs", [a] => showRes (Expr.mkAbs a)
+  | "Conj", [a] => showRes (Expr.mkConj a)
+  | "Real", [a] => showRes (Expr.mkReal a)
+  | "Imag", [a] => showRes (Expr.mkImag a)
+  | "Indexed", [a, .mi is] => showRes (Expr.mkIndexed a is)
+  | "IndexSum", [a, .mi [.free j]] => showRes (Expr.mkIndexSum a j)
+  | "IndexSum", [_, .mi _] => "(raises)"
+  | "ComponentTensor", [a, .mi is] => showRes (Expr.mkComponentTensor a is)
+  | "ListTensor", xs => showRes (Expr.mkListTensor xs)
+  | "Conditional", [c, t, f] => showRes (Expr.mkConditional c t f)
+  | "NotCondition", [a] => showRes (Expr.mkNot a)
+  | "MinValue", [a, b] => showRes (Expr.mkMinMax .minValue a b)
+  | "MaxValue", [a, b] => showRes (Expr.mkMinMax .maxValue a b)
+  | n, [a, b] =>
+    (match Op.ofName n with
+     | .other _ => "(bad-request)"
+     | k => showRes (Expr.mkCondition k a b))
+  | _, _ => "(bad-request)"
 
 def answer (line : String) : String :=
   match SExp.read line with
@@ -42,6 +77,10 @@ def answer (line : String) : String :=
        if x.usesFloatOnly then s!"(okf {fbits f})"
        else s!"(ok {showRat (Expr.eval r.rat .none (idxEnvOf idx) x comp)} {fbits f})"
      | _, _, _ => "(parse-error)")
+  | some (.list (.atom "mk" :: .atom name :: args)) =>
+    (match Expr.ofSExpL args with
+     | some xs => mk name xs
+     | none => "(parse-error)")
   | some (.list [.atom "cmp", a, b]) =>
     (match Expr.ofSExp a, Expr.ofSExp b with
      | some x, some y => s!"(ok {Expr.ordStr (Expr.cmp x y)})"
